@@ -73,6 +73,7 @@ type Thread struct {
 	// value handed over by a partner (select / recv completion)
 	mailbox Value
 	hasMail bool
+	yielded bool
 }
 
 func (t *Thread) top() *Frame { return t.frames[len(t.frames)-1] }
